@@ -39,19 +39,19 @@ type Result struct {
 
 // Ctx is handed to a property driver running in a child process.
 type Ctx struct {
-	mu       sync.Mutex
-	Prop     string
-	Tier     string
-	Seed     int64
-	Batch    int
-	NBatch   int
-	OnlyCase string // replay filter ("" = all)
-	WorkDir  string
-	res      Result
-	distinct map[string]struct{}
-	vioKeys  map[string]int
-	journal  *os.File
-	maxSamp  int
+	mu         sync.Mutex
+	Prop       string
+	Tier       string
+	Seed       int64
+	Batch      int
+	NBatch     int
+	OnlyCase   string // replay filter ("" = all)
+	WorkDir    string
+	res        Result
+	distinct   map[string]struct{}
+	vioKeys    map[string]int
+	journal    *os.File
+	maxSamp    int
 	startAfter string
 	skipping   bool
 }
